@@ -11,5 +11,7 @@ CONSTANTS
   IdentityDepKey = TRUE
   VolatileUniq = TRUE
   FreshModule = TRUE
+  Words = {1, 2}
+  FullStropKey = TRUE
 INVARIANT Emit
 CHECK_DEADLOCK FALSE
